@@ -190,7 +190,7 @@ pub fn specs() -> Vec<PropSpec> {
         },
         PropSpec {
             id: "C09",
-            parts: &[("c09cuts", 32, 480), ("c09queue", 1600, 60000), ("c18", 160, 3000)],
+            parts: &[("c09cuts", 32, 480), ("c09queue", 1600, 60000), ("c18", 160, 3000), ("c10fail", 320, 8000)],
             level: "fault_enumeration",
             tags: &["C09", "LIVENESS"],
             rule: "Two kinds of evaluation. (1) c09cuts: one (operation, \
@@ -231,7 +231,7 @@ pub fn specs() -> Vec<PropSpec> {
         },
         PropSpec {
             id: "C10",
-            parts: &[("c10", 480, 20000)],
+            parts: &[("c10", 480, 20000), ("c10fail", 320, 8000)],
             level: "exploration",
             tags: &["C10"],
             rule: "Each evaluation is one seeded sequence of 25-75 \
@@ -640,10 +640,11 @@ pub fn run_profile(
             }
         }
     }
-    if name == "c10" {
+    if name == "c10" || name == "c10fail" {
+        let faults = name == "c10fail";
         let res = std::thread::Builder::new()
             .stack_size(32 * 1024 * 1024)
-            .spawn(move || crate::c10::run(seed))
+            .spawn(move || crate::c10::run_with(seed, faults))
             .expect("spawn").join();
         return match res {
             Ok(report) => report,
@@ -713,6 +714,11 @@ pub fn run_one(profile: &str, seed: u64) -> i32 {
     println!("config {}", report.config);
     for (i, (op, res)) in report.ops.iter().zip(&report.results).enumerate() {
         println!("{:3} {} -> {}", i + 1, serde_json::to_string(op).unwrap(), res);
+    }
+    if report.ops.is_empty() {
+        for line in &report.results {
+            println!("    {line}");
+        }
     }
     println!("stats {:?}", report.stats);
     println!(
